@@ -7,6 +7,7 @@ import HcipyVerif.Lemmas.ZernikeRadialGen
 import HcipyVerif.Lemmas.ZernikeRadialReal
 import HcipyVerif.Lemmas.ZernikeArr
 import HcipyVerif.Lemmas.ZernikeUnit
+import HcipyVerif.Lemmas.ZernikePolyId
 import Mathlib.Data.Rat.BigOperators
 
 /-!
@@ -287,12 +288,25 @@ polynomials with exact rational coefficients. -/
 theorem radial_table :
     ((pairs 20).all fun (n, m) => radialPoly n m == radialDef n m) = true := by decide +kernel
 
-theorem radial_poly_eq_def (n m : Nat) (hn : n ≤ 20) (hm : m ≤ n) (hpar : (n - m) % 2 = 0) :
+theorem radial_poly_eq_def_table (n m : Nat) (hn : n ≤ 20) (hm : m ≤ n) (hpar : (n - m) % 2 = 0) :
     radialPoly n m = radialDef n m := by
   have h := radial_table
   rw [List.all_eq_true] at h
   have := h (n, m) ((mem_pairs 20 n m).mpr ⟨hn, hm, hpar⟩)
   simpa using this
+
+/-- **The polynomial identity, every radial order** (no table, no bound): the coefficient list the q-recursion of the code produces
+(`radialPoly`, driver op `C13 poly`, compared with the real recursion run on a symbolic argument) *is* the coefficient list of the factorial
+definition (`radialDef`, driver op `C13 defpoly`) — equality of lists of exact rationals, not only of values.  Proof
+(`Lemmas/ZernikePolyId.lean`): both lists have length `n + 1`, they agree at every rational point by induction along the recursion, and a
+polynomial over `ℚ` is determined by its values. `radial_table` / `radial_poly_eq_def_table` remain as an independent kernel evaluation for `n ≤ 20`. -/
+theorem radial_poly_eq_def (n m : Nat) (hm : m ≤ n) (hpar : (n - m) % 2 = 0) : radialPoly n m = radialDef n m :=
+  radialPoly_eq_radialDef n m hm hpar
+
+/-- both coefficient lists have exactly `n + 1` entries (degree `n`, no trailing padding) -/
+theorem radial_poly_length (n m : Nat) (hm : m ≤ n) (hpar : (n - m) % 2 = 0) :
+    (radialPoly n m).length = n + 1 ∧ (radialDef n m).length = n + 1 :=
+  ⟨length_radialPoly n m hm hpar, length_radialDef n m⟩
 
 /-- **Every radial order** (no table, no bound): `zernike_radial(n, m, r)` equals
 `Σ_k (-1)^k (n-k)! / (k! ((n+m)/2-k)! ((n-m)/2-k)!) r^(n-2k)` for every valid `(n, m)` and **every** rational `r`, the
@@ -316,7 +330,7 @@ theorem reduced_matches_definition (n k : Nat) (hk : 2 * k ≤ n) (t : Rat) :
 (`radial_table`), hence the values -/
 theorem radial_matches_definition_table (n m : Nat) (hn : n ≤ 20) (hm : m ≤ n) (hpar : (n - m) % 2 = 0) (r : Rat) :
     radialEval n m r = peval (radialDef n m) r := by
-  rw [← peval_radialPoly, radial_poly_eq_def n m hn hm hpar]
+  rw [← peval_radialPoly, radial_poly_eq_def_table n m hn hm hpar]
 
 /-- at the centre every mode with `m ≠ 0` vanishes — for every radial order -/
 theorem radial_at_zero_pos (n m : Nat) (hm : 0 < m) : radialEval n m 0 = 0 := by
